@@ -1,4 +1,4 @@
-SOURCE_COMMITS = ['2a82dd5', '23b3277', 'd11a4bc', '0ff938d', 'f5c3f96', '4d27d01', '24cde5a', 'eabce87']
+SOURCE_COMMITS = ['2a82dd5', '23b3277', 'd11a4bc', '0ff938d', 'f5c3f96', '4d27d01', '24cde5a', 'eabce87', '6660817']
 NOTES = ('Exit codes of ./check: 0 all obligations discharged; 1 violation (VIOLATION line); '
          '2 undecided (solver unknown / extraction failure / contract binding lost); 3 checker crash. '
          'See DESIGN.md.')
@@ -120,4 +120,14 @@ CLAIMED = {
    note='Trusted: sgd contract, optimizers/grad pure and extensional, for_each_client contract. Bounded native stand-in (not proved): '
         'whole-round equality for HypCluster(1 cluster), MimeLite, Mime. HypCluster differs from FedAvg on an all-empty cohort with a '
         'stateful server optimizer (documented precondition).'),
+ 'C17': dict(
+   text='One-step preservation proofs from the real code: exponentiated-gradient update has the form max(w*exp,0)/S with one scalar '
+        'normaliser and keeps positive entries positive; the window keeps its length and shifts (drop oldest, append newest) without '
+        'touching the input list, init builds window_size entries; alpha and the scaled client loss stay finite in IEEE float32 for '
+        'domains/clients without data; APFL coefficients are clipped into [0,1] after every step and the state table is only written at '
+        'participating ids; HypCluster leaves clusters without examples identical (params AND optimizer state), updates each cluster '
+        'from exactly its assigned clients (loop invariant over any number of clients), assignment is argmin; MimeLite aggregates the '
+        'clipped delta; ignore_grads_haiku returns named entries equal to the input and the rest as the base optimizer.',
+   note='Trusted: sum lemmas for "sums to 1", exp > 0, haiku map/dict copies, argmin first minimum; HypCluster loop bodies executed for '
+        'K = 3 / K = 2 clusters (uniform in the cluster index); _cluster_losses: native driver only.'),
 }
